@@ -7,9 +7,12 @@ def chk(pid, category, text, note, technique, design):
     CHECKS[pid] = dict(property_id=pid, quick_cmd=f"./check {pid} --tier quick", thorough_cmd=f"./check {pid} --tier thorough",
         evidence_file=f"{V}/evidence/{pid}.json", replay_cmd_template=f"./check {pid} --replay {{path}}", engine="coq",
         level_claimed=dict(category=category, text=text, design_ref=design), level_note=note, technique=technique)
-exec(open(V + "/tools/manifest_entries.py").read())
+NOT_APPLICABLE = {}
+import glob
+for f in sorted(glob.glob(V + "/tools/manifest.d/*.py")):
+    exec(open(f).read())
 props = [json.loads(l)["id"] for l in open(V + "/properties.jsonl")]
-NA = globals().get("NOT_APPLICABLE", {})
+NA = NOT_APPLICABLE
 man = dict(version=1,
   setup_cmd="sh tools/setup.sh",
   hooks=dict(guard="TTCONV_VERIF", enable="export TTCONV_VERIF=1 (no hook is compiled in: all observations go through public APIs; the variable is only set by ./check)",
